@@ -108,11 +108,13 @@ func wrapInt(t types.Type, e string) string {
 		return e
 	}
 	m := modulus(b)
+	// The in-range case is split off: linear arithmetic with mod by 2^64 is slow in the solvers, and almost every
+	// value the code computes is in range.
 	if isUnsigned(b) {
-		return "(mod " + e + " " + m + ")"
+		return fmt.Sprintf("(ite (and (<= 0 %s) (< %s %s)) %s (mod %s %s))", e, e, m, e, e, m)
 	}
-	_, hi, _ := intRange(b)
-	return fmt.Sprintf("(- (mod (+ %s %s 1) %s) %s 1)", e, hi, m, hi)
+	lo, hi, _ := intRange(b)
+	return fmt.Sprintf("(ite (and (<= %s %s) (<= %s %s)) %s (- (mod (+ %s %s 1) %s) %s 1))", neg(lo), e, e, hi, e, e, hi, m, hi)
 }
 
 func kindOf(t types.Type) Kind {
